@@ -24,8 +24,11 @@ CHECKS = {
              "the abstract promise (tables = sequences of rows); TLC checks ScanEqAbs/CatalogOK/IdsOK/TreesOK exhaustively in bounded "
              "configurations (capacities 3/3, 1-2 tables, up to 4-7 statements) and prints one scenario per observable transition; "
              "every scenario (quick) or a seeded sample (thorough) is executed on the real engine through SQL text at capacities 3/3 "
-             "and SELECT * / sys_schema / row ids are compared with the promise, followed by flush+cache-drop and restart probes. Code -> spec: seeded runs of 250-700 statements at production capacities (flushes, some with a failing page write) are validated by TLC against AbsTrace.tla (contents) and WalOrderTrace.tla (order of stamps, log and data-file writes).",
-        design_ref="DESIGN.md 6 (C01)",
+             "and SELECT * / sys_schema / row ids are compared with the promise, followed by flush+cache-drop and restart probes. Code -> spec: seeded runs of 250-700 statements at production capacities (flushes, some with a failing page write) are validated by TLC against AbsTrace.tla (contents) and WalOrderTrace.tla (order of stamps, log and data-file writes). "
+             "Statement histories over the whole WHERE language (1-3 INSERT / UPDATE / DELETE statements assembled from the sets TLC enumerates from SqlSemGen.tla: "
+             "every assignment list, every condition; NULLs, keyword-like strings, tables with deleted rows, capacities 3/3, flush + cache drop between statements) "
+             "are executed through SQL text and judged by TLC against SqlSem!HistoryOK (the meaning of UPDATE / DELETE = the WHERE of a SELECT; a refused statement changes nothing).",
+        design_ref="DESIGN.md 6 (C01), 11.6 (round 10)",
         note="Trusted: TLC; the SQL rendering of abstract statements; hook verifIsFull (capacity override runs the same code). "
              "Bounded small-scope exhaustive, not a proof; page-level disagreement with the model is reported as drift, never as a violation.",
         technique="TLA+ spec (Store.tla/BTree.tla) model-checked with TLC; per-transition behaviour replay on the real engine",
